@@ -99,62 +99,60 @@ theorem C10_flatten_count (cfg : FlattenCfg) (fuel : Nat) (h : Hdr) (t : Ty) (hf
     (outs : List FT) (hm : flattenMangle cfg fuel h t = .ok outs) : outs.length = leafCount fuel t := by
   rw [flattenMangle_length cfg fuel h t outs hm, leafCount_eq_leafN fuel t hf]
 
-/-
-ORIGINAL STATEMENT — FALSE as written (kept verbatim; see the counterexamples proved below):
+/-- flatten, lossless — the ORIGINAL full-strength statement (no pointer hypothesis): populating from
+any filling of the flattened leaves succeeds, consumes exactly the leaves of the type, and yields a
+value whose leaves — read back in flatten order — are exactly the filling; intermediate structs are
+allocated only when one of their leaves is set (otherwise the whole value is unset).
 
-/-- flatten, lossless: populating from any filling of the flattened leaves succeeds, consumes exactly
-the leaves of the type, and yields a value whose leaves — read back in flatten order — are exactly
-the filling; intermediate structs are allocated only when one of their leaves is set (otherwise the
-whole value is unset). -/
+History: before the repair of P02 this was FALSE for the model (and the code): `populate` /
+populateStruct set a `*struct` on a struct held by value (`reflect.Set` panic) as soon as one of its
+leaves was set, and the statement was proved only under `structsBehindPtr t = true`
+(`C10_flatten_lossless_partial`).  Since the repair a struct held by value receives the rebuilt struct
+itself, and the statement holds for EVERY type; the two former counterexample inputs now evaluate to
+rebuilt values (`C10_flatten_lossless_bare_rebuilt`, `C10_flatten_lossless_nested_rebuilt`). -/
 theorem C10_flatten_lossless (fuel : Nat) (t : Ty) (hf : tySize t < fuel) (vals rest : List Val)
     (hl : vals.length = leafCount fuel t) :
     ∃ v, populate fuel t (vals ++ rest) = .ok (v, rest, vals.any (fun x => !x.isNil)) ∧
       flatLeaves fuel t v = vals ∧
-      ((∀ x ∈ vals, x = Val.nilv) → (stripPtrs t).isStructTy = true → v = .nilv)
+      ((∀ x ∈ vals, x = Val.nilv) → (stripPtrs t).isStructTy = true → v = .nilv) := by
+  rw [leafCount_eq_leafN fuel t hf] at hl
+  obtain ⟨v, hp, hfl, hv⟩ := populate_spec fuel t hf vals rest hl
+  exact ⟨v, hp, hfl, fun hn _ => hv hn⟩
 
-Counterexamples (`populate` models populateStruct's reflect.Set panic for a struct that is not
-behind a pointer and has a set child):
-  (a) t = struct{A *bool}, fuel = 6, vals = [ptr (b true)], rest = []:
-        populate 6 t vals = .panic "reflect.Set: *struct into struct"
-  (b) t = *struct{A *bool; N struct{X *bool}}, fuel = 13, vals = [nilv, ptr (b true)], rest = []:
-        the nested struct VALUE field N hits the same panic.
-Both satisfy `tySize t < fuel` and `vals.length = leafCount fuel t`.  Pointerify never produces such
-types (every struct sits behind a pointer), which is the hypothesis `structsBehindPtr t = true` of
-`C10_flatten_lossless_partial`; an all-unset filling needs no hypothesis (`C10_flatten_lossless_allnil`).
--/
-
-/-- counterexample (a) to the unconditional statement: a struct not behind a pointer, child set -/
-theorem C10_flatten_lossless_counterexample_bare :
+/-- former counterexample (a), now the truth for that input: a struct NOT behind a pointer with its child
+set is rebuilt as the struct itself (before the repair of P02: `.panic "reflect.Set: *struct into struct"`),
+and its leaves read back as the filling -/
+theorem C10_flatten_lossless_bare_rebuilt :
     let t : Ty := .struct (.cons "A" [] false (.ptr (.basic .bool false)) .nil)
     tySize t < 6 ∧ [Val.ptr (.b true)].length = leafCount 6 t ∧
-      populate 6 t ([Val.ptr (.b true)] ++ []) = .panic "reflect.Set: *struct into struct" := by
-  refine ⟨by decide, by decide, ?_⟩
-  simp [populate, populate.fields, stripPtrs, ptrDepth, Fields.toList, Val.isNil]
+      populate 6 t ([Val.ptr (.b true)] ++ []) = .ok (.struct [.ptr (.b true)], [], true) ∧
+      flatLeaves 6 t (.struct [.ptr (.b true)]) = [Val.ptr (.b true)] := by
+  refine ⟨by decide, by decide, ?_, ?_⟩
+  · simp [populate, populate.fields, stripPtrs, ptrDepth, Fields.toList, Val.isNil, wrapPtrs]
+  · simp [flatLeaves, flatLeaves.go, flatLeaves.strip, stripPtrs, ptrDepth, Fields.toList]
 
-/-- counterexample (b): a struct VALUE field nested inside a pointer-to-struct, child set -/
-theorem C10_flatten_lossless_counterexample_nested :
+/-- former counterexample (b), now the truth for that input: a struct VALUE field nested inside a
+pointer-to-struct, child set: the inner struct is rebuilt by value inside the allocated outer struct -/
+theorem C10_flatten_lossless_nested_rebuilt :
     let t : Ty := .ptr (.struct (.cons "A" [] false (.ptr (.basic .bool false))
       (.cons "N" [] false (.struct (.cons "X" [] false (.ptr (.basic .bool false)) .nil)) .nil)))
     tySize t < 13 ∧ [Val.nilv, Val.ptr (.b true)].length = leafCount 13 t ∧
-      populate 13 t ([Val.nilv, Val.ptr (.b true)] ++ []) = .panic "reflect.Set: *struct into struct" := by
-  refine ⟨by decide, by decide, ?_⟩
-  simp [populate, populate.fields, stripPtrs, ptrDepth, Fields.toList, Val.isNil]
+      populate 13 t ([Val.nilv, Val.ptr (.b true)] ++ []) =
+        .ok (.ptr (.struct [.nilv, .struct [.ptr (.b true)]]), [], true) ∧
+      flatLeaves 13 t (.ptr (.struct [.nilv, .struct [.ptr (.b true)]])) = [Val.nilv, Val.ptr (.b true)] := by
+  refine ⟨by decide, by decide, ?_, ?_⟩
+  · simp [populate, populate.fields, stripPtrs, ptrDepth, Fields.toList, Val.isNil, wrapPtrs]
+  · simp [flatLeaves, flatLeaves.go, flatLeaves.strip, stripPtrs, ptrDepth, Fields.toList]
 
-/-- flatten, lossless — the statement of `C10_flatten_lossless` under the additional hypothesis
-`hptr : structsBehindPtr t = true` (every struct type nested in `t`, through pointers and struct fields,
-sits behind at least one pointer — what Pointerify guarantees; defined in Lemmas/Tf.lean).  The
-conclusion is the original one verbatim: populating from any filling of the flattened leaves
-succeeds, consumes exactly the leaves of the type, and yields a value whose leaves — read back in
-flatten order — are exactly the filling; intermediate structs are allocated only when one of their
-leaves is set (otherwise the whole value is unset). -/
+/-- the former partial statement (extra hypothesis `structsBehindPtr t = true`: every struct behind a
+pointer — what Pointerify guarantees) is now a special case of `C10_flatten_lossless`; kept under its
+name for the users of the old statement -/
 theorem C10_flatten_lossless_partial (fuel : Nat) (t : Ty) (hf : tySize t < fuel) (vals rest : List Val)
-    (hl : vals.length = leafCount fuel t) (hptr : structsBehindPtr t = true) :
+    (hl : vals.length = leafCount fuel t) (_hptr : structsBehindPtr t = true) :
     ∃ v, populate fuel t (vals ++ rest) = .ok (v, rest, vals.any (fun x => !x.isNil)) ∧
       flatLeaves fuel t v = vals ∧
-      ((∀ x ∈ vals, x = Val.nilv) → (stripPtrs t).isStructTy = true → v = .nilv) := by
-  rw [leafCount_eq_leafN fuel t hf] at hl
-  obtain ⟨v, hp, hfl, hv⟩ := populate_spec fuel t hf vals rest hl (Or.inl hptr)
-  exact ⟨v, hp, hfl, fun hn _ => hv hn⟩
+      ((∀ x ∈ vals, x = Val.nilv) → (stripPtrs t).isStructTy = true → v = .nilv) :=
+  C10_flatten_lossless fuel t hf vals rest hl
 
 /-- flatten, lossless on the all-unset filling, for EVERY type (no pointer hypothesis, struct or not):
 populate succeeds, consumes exactly the leaves, reports "no child set", allocates nothing, and the
@@ -163,7 +161,7 @@ theorem C10_flatten_lossless_allnil (fuel : Nat) (t : Ty) (hf : tySize t < fuel)
     (hl : vals.length = leafCount fuel t) (hnil : ∀ x ∈ vals, x = Val.nilv) :
     populate fuel t (vals ++ rest) = .ok (.nilv, rest, false) ∧ flatLeaves fuel t .nilv = vals := by
   rw [leafCount_eq_leafN fuel t hf] at hl
-  obtain ⟨v, hp, hfl, hv⟩ := populate_spec fuel t hf vals rest hl (Or.inr hnil)
+  obtain ⟨v, hp, hfl, hv⟩ := populate_spec fuel t hf vals rest hl
   have h0 : anySet vals = false := (anySet_false_iff vals).2 hnil
   rw [hv hnil, h0] at hp
   rw [hv hnil] at hfl
@@ -253,7 +251,8 @@ theorem C10_chain_roundtrip (fuel : Nat) (ls : List LM) (fs tfs : List FT) (vs :
 /-- The library's manglers are lossless (anonymous-flatten: see `C10_lossless_anon`), each on the
 stated fields / values:
 * alias — `HG (aliasP tags)`: well-shaped values; an aliased field is not of bare struct / array-of-struct type;
-* flatten — fields with `tySize < fuel` and every struct behind a pointer; the values `populate` can build;
+* flatten — fields with `tySize < fuel` (nothing else since the repair of P02: structs held by value are
+  restored like structs behind pointers); the values `populate` can build;
 * set → slice — `HG setP`: set-typed fields hold nil or a set (no struct-keyed sets);
 * Duration substitution, tag copy, tag reformat — `WS`: well-shaped values;
 * string cast — fields whose type has an element type (`hasElemTy`: pointer / slice / array / map / set; the
@@ -263,8 +262,7 @@ theorem C10_lossless_library (tags : List String) (cfg : FlattenCfg) (fuelF : Na
     (parse : String → Ty → Outcome Val) (fmt : Ty → Val → String) (src new tag : String)
     (dec : List Char → Option (List (List Char))) (enc : CaseConv.Scheme) :
     Nonempty (Lossless (aliasMangler tags) (fun _ => True) (HG (aliasP tags))) ∧
-    Nonempty (Lossless (flattenMangler cfg fuelF) (fun f => tySize f.2 < fuelF ∧ structsBehindPtr f.2 = true)
-      (flattenGood fuelF)) ∧
+    Nonempty (Lossless (flattenMangler cfg fuelF) (fun f => tySize f.2 < fuelF) (flattenGood fuelF)) ∧
     Nonempty (Lossless setSliceMangler (fun _ => True) (HG setP)) ∧
     Nonempty (Lossless durSubMangler (fun _ => True) WS) ∧
     Nonempty (Lossless (stringCastMangler parse) (fun f => hasElemTy f.2 = true) (scGood parse fmt)) ∧
@@ -340,7 +338,7 @@ theorem C10_roundtrip_flag_chain (tags : List String) (cfg : FlattenCfg) (fuelF 
     (h2 : mangleLayer fuel (flattenMangler cfg fuelF) fs1 = .ok tfs)
     (hv : All2 (HG (aliasP tags)) fs vs)
     (e1 : w1 = encLayer (aliasMangler tags) (losslessAlias tags).enc fuel fs vs)
-    (hd : ∀ f ∈ fs1, tySize f.2 < fuelF ∧ structsBehindPtr f.2 = true)
+    (hd : ∀ f ∈ fs1, tySize f.2 < fuelF)
     (hc : All2 (flattenGood fuelF) fs1 w1) :
     ∃ tvals, tvals = ((fs1.zip w1).map fun p => flatLeaves fuelF p.1.2 p.2).flatten ∧
       tvals.length = tfs.length ∧
@@ -365,26 +363,27 @@ theorem C10_roundtrip_flag_chain (tags : List String) (cfg : FlattenCfg) (fuelF 
 alias (well shaped; aliased fields not of bare struct / array-of-struct type) and flatten-canonical
 (`Canon`: every struct value sits behind exactly the pointers of its type, has one canonical value per
 field, and is allocated only if one of its fields is set) has an encoding of the translated fields that
-reverses to it.  `hd` is a condition on the translated field TYPES only (flatten's fuel; every struct
-behind a pointer — what Pointerify guarantees). -/
+reverses to it.  `hd` is a condition on the translated field TYPES only: flatten's fuel (the former
+second conjunct "every struct behind a pointer" is gone since the repair of P02). -/
 theorem C10_roundtrip_flag_chain_canon (tags : List String) (cfg : FlattenCfg) (fuelF fuel : Nat)
     (fs fs1 tfs : List FT) (vs : List Val)
     (h1 : mangleLayer fuel (aliasMangler tags) fs = .ok fs1)
     (h2 : mangleLayer fuel (flattenMangler cfg fuelF) fs1 = .ok tfs)
     (hv : All2 (HG (aliasP tags)) fs vs) (hc : All2 Canon fs vs)
-    (hd : ∀ f ∈ fs1, tySize f.2 < fuelF ∧ structsBehindPtr f.2 = true) :
+    (hd : ∀ f ∈ fs1, tySize f.2 < fuelF) :
     ∃ tvals, tvals.length = tfs.length ∧
       reverse fuel [aliasMangler tags, flattenMangler cfg fuelF] fs tvals = .ok vs := by
   obtain ⟨tvals, _, hl, hr⟩ := C10_roundtrip_flag_chain tags cfg fuelF fuel fs fs1 tfs vs _ h1 h2 hv rfl hd
     (alias_flattenGood tags fuelF fuel fs fs1 vs h1 hv hc hd)
   exact ⟨tvals, hl, hr⟩
 
-/-- flatten alone: canonical values are exactly recoverable (the explicit form of `flattenGood`) -/
-theorem C10_flatten_canon (fuel : Nat) (f : FT) (v : Val) (hsz : tySize f.2 < fuel)
-    (hbp : structsBehindPtr f.2 = true) (hc : Canon f v) :
+/-- flatten alone: canonical values are exactly recoverable (the explicit form of `flattenGood`), for every
+type (the hypothesis "every struct behind a pointer" is gone since the repair of P02; for a struct held by
+value `Canon` takes `nilv` as the one representation of "nothing set") -/
+theorem C10_flatten_canon (fuel : Nat) (f : FT) (v : Val) (hsz : tySize f.2 < fuel) (hc : Canon f v) :
     populate fuel f.2 (flatLeaves fuel f.2 v) = .ok (v, [], !v.isNil) ∧
       (flatLeaves fuel f.2 v).length = leafCount fuel f.2 := by
-  obtain ⟨hp, hl⟩ := populate_canon fuel f.2 hsz hbp v [] hc
+  obtain ⟨hp, hl⟩ := populate_canon fuel f.2 hsz v [] hc
   rw [List.append_nil] at hp
   exact ⟨hp, by rw [hl, leafCount_eq_leafN fuel f.2 hsz]⟩
 
@@ -407,7 +406,7 @@ theorem C10_roundtrip_env_chain (tags : List String) (cfg : FlattenCfg) (fuelF f
     (h5 : mangleLayer fuel (stringCastMangler parse) fs4 = .ok tfs)
     (hv : All2 (HG (aliasP tags)) fs vs)
     (e1 : w1 = encLayer (aliasMangler tags) (losslessAlias tags).enc fuel fs vs)
-    (hd : ∀ f ∈ fs1, tySize f.2 < fuelF ∧ structsBehindPtr f.2 = true)
+    (hd : ∀ f ∈ fs1, tySize f.2 < fuelF)
     (hc : All2 (flattenGood fuelF) fs1 w1)
     (e2 : w2 = ((fs1.zip w1).map fun p => flatLeaves fuelF p.1.2 p.2).flatten)
     (hw : All2 WS fs2 w2)
@@ -489,7 +488,7 @@ theorem C10_roundtrip_env_chain_canon (tags : List String) (cfg : FlattenCfg) (f
     (h4 : mangleLayer fuel (tagCopyMangler src new) fs3 = .ok fs4)
     (h5 : mangleLayer fuel (stringCastMangler parse) fs4 = .ok tfs)
     (hv : All2 (HG (aliasP tags)) fs vs) (hc : All2 Canon fs vs)
-    (hd : ∀ f ∈ fs1, tySize f.2 < fuelF ∧ structsBehindPtr f.2 = true)
+    (hd : ∀ f ∈ fs1, tySize f.2 < fuelF)
     (e2 : w2 = ((fs1.zip (encLayer (aliasMangler tags) (losslessAlias tags).enc fuel fs vs)).map
       fun p => flatLeaves fuelF p.1.2 p.2).flatten)
     (hw : All2 WS fs2 w2)
@@ -502,10 +501,40 @@ theorem C10_roundtrip_env_chain_canon (tags : List String) (cfg : FlattenCfg) (f
   C10_roundtrip_env_chain tags cfg fuelF fuel tag dec enc src new parse fmt fs fs1 fs2 fs3 fs4 tfs vs _ w2
     h1 h2 h3 h4 h5 hv rfl hd (alias_flattenGood tags fuelF fuel fs fs1 vs h1 hv hc hd) e2 hw hel hs
 
-/-- anonymous flatten is lossless on `HG anonP` (embedded structs / pointers to structs / leaves; an
-unset embedded `*struct` has no bare struct-typed field; a set one has a set field) -/
+/-- anonymous flatten is lossless on `HG anonP`: embedded structs, pointers to structs (an unset embedded
+`*struct` has no bare struct-typed field; a set one has a set field), leaves, and — since the repair of
+P08, without any condition — embedded pointers to non-structs (`*T` of a named scalar, `*string`,
+`**struct`), which Mangle and Unmangle pass through unchanged (`C10_anon_ptr_nonstruct_identity`) -/
 theorem C10_lossless_anon (fuel : Nat) : Nonempty (Lossless (anonMangler fuel) (fun _ => True) (HG anonP)) :=
   ⟨losslessAnon fuel⟩
+
+/-- anonymous flatten on an embedded (or not) POINTER whose pointee is not a struct — `*T` of a named scalar,
+`*string`, `**struct` (`Type.Elem().Kind()` is Ptr) —: since the repair of P08 Mangle returns the field
+unchanged and Unmangle forwards its single value, whatever it is (before: Mangle stripped the pointer
+and Unmangle rebuilt a `*struct`) -/
+theorem C10_anon_ptr_nonstruct_identity (fuel : Nat) (h : Hdr) (e : Ty) (hne : ∀ ifs, e ≠ .struct ifs)
+    (o : FT) (v : Val) (rest : List (FT × Val)) :
+    anonMangle (fuel + 1) h (.ptr e) = .ok [(h, .ptr e)] ∧
+      anonUnmangle h (.ptr e) ((o, v) :: rest) = .ok v := by
+  have hnp : ∀ ifs, Ty.ptr e ≠ .ptr (.struct ifs) := fun ifs h' => hne ifs (by cases h'; rfl)
+  have hns : ∀ ifs, Ty.ptr e ≠ .struct ifs := fun ifs h' => by cases h'
+  refine ⟨?_, anonUnmangle_other hnp hns o v rest⟩
+  cases ha : h.anon with
+  | false => simp [anonMangle, ha]
+  | true =>
+    cases e with
+    | struct ifs => exact absurd rfl (hne ifs)
+    | _ => simp [anonMangle, ha]
+
+/-- … in particular `**struct` is passed through, and only `*struct` / `struct` embedded fields are hoisted -/
+theorem C10_anon_hoists_only_structs (fuel : Nat) (n : String) (tg : List (String × String)) (ifs : Fields) :
+    anonMangle (fuel + 2) ⟨n, tg, true⟩ (.ptr (.struct ifs)) = .ok ifs.toList ∧
+    anonMangle (fuel + 1) ⟨n, tg, true⟩ (.struct ifs) = .ok ifs.toList ∧
+    anonMangle (fuel + 1) ⟨n, tg, true⟩ (.ptr (.ptr (.struct ifs))) = .ok [(⟨n, tg, true⟩, .ptr (.ptr (.struct ifs)))] := by
+  refine ⟨?_, ?_, ?_⟩
+  · simp [anonMangle]
+  · simp [anonMangle]
+  · simp [anonMangle]
 
 /-- the env source's regenerated chain (F12a) is the chain of `C10_roundtrip_env_chain` -/
 theorem C10_env_chain_is_shipped (fuelF : Nat) (parse : String → Ty → Outcome Val) :
@@ -547,9 +576,9 @@ theorem fs1_shape : ∃ hA hB n1 g1 a1 n2 g2 a2 n3 g3 a3, fs1 =
 theorem e1 : w1 = encLayer (aliasMangler tags) (losslessAlias tags).enc 10 fs vs := rfl
 theorem hv : All2 (HG (aliasP tags)) fs vs := by
   simp [fs, vs, inner, HG, Hered, aliasP, tInt, tStr, tBool, bareStructish]
-theorem hd : ∀ f ∈ fs1, tySize f.2 < 20 ∧ structsBehindPtr f.2 = true := by
+theorem hd : ∀ f ∈ fs1, tySize f.2 < 20 := by
   obtain ⟨hA, hB, n1, g1, a1, n2, g2, a2, n3, g3, a3, h⟩ := fs1_shape
-  simp [h, tySize, fieldsSize, structsBehindPtr, underPtr, fieldsBehindPtr, tInt, tStr, tBool]
+  simp [h, tySize, fieldsSize, tInt, tStr, tBool]
 theorem hc : All2 (flattenGood 20) fs1 w1 := by
   obtain ⟨hA, hB, n1, g1, a1, n2, g2, a2, n3, g3, a3, h⟩ := fs1_shape
   rw [h]
@@ -576,6 +605,48 @@ example : ∃ tvals, tvals.length = tfs.length ∧
     reverse 10 [aliasMangler tags, flattenMangler cfg 20] fs tvals = .ok vs :=
   C10_roundtrip_flag_chain_canon tags cfg 20 10 fs fs1 tfs vs h1 h2 hv hcanon hd
 end Flag
+
+/-! #### flag chain over a struct held BY VALUE (what the repair of P02 added):
+`struct { Srv *struct { N struct { X *bool }; Name *string } }` with `Srv.N.X = true` -/
+namespace ByValue
+def tags : List String := ["dials", "dialsflag"]
+def cfg : FlattenCfg := ⟨"dials", .upperCamel, .kebab⟩
+def inner : Fields :=
+  .cons "N" [] false (.struct (.cons "X" [] false tBool .nil)) (.cons "Name" [] false tStr .nil)
+def fs : List FT := [(⟨"Srv", [], false⟩, .ptr (.struct inner))]
+def vs : List Val := [.ptr (.struct [.struct [.ptr (.b true)], .nilv])]
+def fs1 : List FT := getOk (mangleLayer 10 (aliasMangler tags) fs)
+def tfs : List FT := getOk (mangleLayer 10 (flattenMangler cfg 20) fs1)
+theorem h1 : mangleLayer 10 (aliasMangler tags) fs = .ok fs1 := rfl
+theorem h2 : mangleLayer 10 (flattenMangler cfg 20) fs1 = .ok tfs := rfl
+theorem fs1_eq : fs1 = fs := rfl
+theorem hv : All2 (HG (aliasP tags)) fs vs := by
+  simp [fs, vs, inner, HG, Hered, aliasP, tStr, tBool, isAliased, tags, tagGet]
+theorem hcanon : All2 Canon fs vs := by
+  simp [fs, vs, inner, Canon, CanonAt, wrapPtrs, anySet, Val.isNil, tStr, tBool]
+theorem hd : ∀ f ∈ fs1, tySize f.2 < 20 := by
+  rw [fs1_eq]
+  simp [fs, inner, tySize, fieldsSize, tStr, tBool]
+/-- the type is NOT one with every struct behind a pointer (the old hypothesis excluded it) -/
+example : ∃ f ∈ fs1, structsBehindPtr f.2 = false :=
+  ⟨(⟨"Srv", [], false⟩, .ptr (.struct inner)), by rw [fs1_eq]; simp [fs],
+    by simp [inner, structsBehindPtr, underPtr, fieldsBehindPtr]⟩
+/-- … and the hypotheses of `C10_roundtrip_flag_chain_canon` hold: some filling of the two flags reverses
+to the value with the rebuilt by-value struct -/
+example : ∃ tvals, tvals.length = tfs.length ∧
+    reverse 10 [aliasMangler tags, flattenMangler cfg 20] fs tvals = .ok vs :=
+  C10_roundtrip_flag_chain_canon tags cfg 20 10 fs fs1 tfs vs h1 h2 hv hcanon hd
+/-- `C10_flatten_canon` on the same field: its leaves are `[true, unset]` and populate restores it -/
+example : populate 20 (.ptr (.struct inner)) [.ptr (.b true), .nilv] =
+    .ok (.ptr (.struct [.struct [.ptr (.b true)], .nilv]), [], true) := by
+  have hc := hcanon
+  simp only [fs, vs, All2_cons] at hc
+  have := (C10_flatten_canon 20 (⟨"Srv", [], false⟩, .ptr (.struct inner))
+    (.ptr (.struct [.struct [.ptr (.b true)], .nilv]))
+    (by simp [inner, tySize, fieldsSize, tStr, tBool]) hc.1).1
+  simpa [inner, flatLeaves, flatLeaves.go, flatLeaves.strip, stripPtrs, ptrDepth, Fields.toList, tStr, tBool,
+    Val.isNil] using this
+end ByValue
 
 /-! #### decoder chain with set → slice: `struct { Timeout *time.Duration `dials:"timeout"`;
 Peers []struct { Name string `dials:"name"`; TTL time.Duration }; Seen map[string]struct{} }` -/
@@ -645,9 +716,9 @@ theorem fs2_shape : ∃ hA hB hC hD, fs2 = [(hA, tStr), (hB, tStr), (hC, tStr), 
 theorem fs4_shape : ∃ hA hB hC hD, fs4 = [(hA, tStr), (hB, tStr), (hC, tStr), (hD, tStr)] := ⟨_, _, _, _, rfl⟩
 theorem hv : All2 (HG (aliasP tags)) fs vs := by
   simp [fs, vs, inner, HG, Hered, aliasP, tStr, bareStructish]
-theorem hd : ∀ f ∈ fs1, tySize f.2 < 20 ∧ structsBehindPtr f.2 = true := by
+theorem hd : ∀ f ∈ fs1, tySize f.2 < 20 := by
   obtain ⟨hA, hB, n1, g1, a1, n2, g2, a2, n3, g3, a3, h⟩ := fs1_shape
-  simp [h, tySize, fieldsSize, structsBehindPtr, underPtr, fieldsBehindPtr, tStr]
+  simp [h, tySize, fieldsSize, tStr]
 theorem hc : All2 (flattenGood 20) fs1 w1 := by
   obtain ⟨hA, hB, n1, g1, a1, n2, g2, a2, n3, g3, a3, h⟩ := fs1_shape
   rw [h]
